@@ -1,5 +1,7 @@
 import Walrus.Rename
 import Walrus.Run
+import Walrus.Proofs.Glue
+import Walrus.Proofs.Sem
 
 /-! Renumbering of functions, types, locals and block types is unobservable (C01, C06, C18). -/
 namespace Walrus.Sem
@@ -209,5 +211,25 @@ theorem mkRec_ren (h : EnvRen fρ yρ btρ xρ E' E) : ∀ (n : Nat),
 theorem invoke_ren (h : EnvRen fρ yρ btρ xρ E' E) (gas : Nat) : invoke E' gas = invoke E gas := by
   unfold invoke
   rw [(mkRec_ren h (gas + 1)).1]
+
+
+theorem EnvRen.resolve (h : EnvRen fρ yρ btρ xρ E' E) : (fun f => E'.resolve (fρ f)) = E.resolve := by
+  funext f
+  exact h.ft f
+
+/-- **the whole observation is unchanged by renumbering**: the renumbered module (function indices
+    of exports, start, element items and `ref.func` constants renumbered by `fρ`; bodies, types and
+    locals as `EnvRen` says) instantiates with the same outcome and every call of the script has
+    the same result, trap, host trace and leaves the same exported state -/
+theorem observe_ren (h : EnvRen fρ yρ btρ xρ E' E) (m : ModuleM) (gas seed rounds : Nat) :
+    observeWith (mapFM fρ m) E'.resolve E'.usigs (invoke E' gas) seed rounds =
+    observeWith m E.resolve E.usigs (invoke E gas) seed rounds := by
+  rw [observeWith_mapF, h.resolve, h.usigs, invoke_ren h]
+
+/-- elision followed by renumbering — what walrus's round trip does to a module -/
+theorem observe_ren_elide (h : EnvRen fρ yρ btρ xρ E' E.elide) (m : ModuleM) (gas seed rounds : Nat) :
+    observeWith (mapFM fρ m) E'.resolve E'.usigs (invoke E' gas) seed rounds =
+    observeWith m E.resolve E.usigs (invoke E gas) seed rounds := by
+  rw [observe_ren h, observe_elide]
 
 end Walrus.Sem
